@@ -1,0 +1,56 @@
+//go:build verif
+
+// Contracts for the verif build tag (comment-only; see /verif/DESIGN.md §4).
+package collector
+
+// ---------------------------------------------------------------------------
+// Template store view (C04): T(domain, id) is defined iff both map levels hold the key
+// ---------------------------------------------------------------------------
+
+//@ pure tplHas(cp *CollectingProcess, d int, i int) bool = has(cp.templatesMap, d) && has(cp.templatesMap[d], i)
+//@ pure tplOf(cp *CollectingProcess, d int, i int) *template = cp.templatesMap[d][i]
+//@ // storeOK: every stored template is a non-nil object whose field list has no nil entries
+//@ pure iesNN(L []*entities.InfoElement) bool = forall k in [0, len(L)): L[k] != nil
+//@ pure storeOK(cp *CollectingProcess) bool = forall d in [0, 4294967296): forall i in [0, 65536): tplHas(cp, d, i) ==> tplOf(cp, d, i) != nil && iesNN(tplOf(cp, d, i).ies)
+
+//@ func getFieldLength(dataBuffer) (r)
+//@   requires nn:   dataBuffer != nil
+//@   ensures  rng:  0 <= r && r <= 65535
+//@   ensures  short: old(len(dataBuffer.buf)) >= 1 && old(dataBuffer.buf[0]) < 255 ==> r == old(dataBuffer.buf[0]) && dataBuffer.buf == old(dataBuffer.buf)[1 : old(len(dataBuffer.buf))]
+//@   ensures  long:  old(len(dataBuffer.buf)) >= 3 && old(dataBuffer.buf[0]) == 255 ==> r == old(dataBuffer.buf[1]) * 256 + old(dataBuffer.buf[2]) && dataBuffer.buf == old(dataBuffer.buf)[3 : old(len(dataBuffer.buf))]
+//@   ensures  shrink: len(dataBuffer.buf) <= old(len(dataBuffer.buf))
+//@   modifies dataBuffer.buf
+
+//@ func (cp *CollectingProcess) getTemplateIEs(obsDomainID, templateID) (ies, err)
+//@   requires cp:   cp != nil && !cp.mutex.held
+//@   ensures  found: old(tplHas(cp, obsDomainID, templateID)) ==> err == nil && ies == old(tplOf(cp, obsDomainID, templateID).ies)
+//@   ensures  missing: !old(tplHas(cp, obsDomainID, templateID)) ==> err != nil
+//@   ensures  lock: !cp.mutex.held && !cp.mutex.rheld
+//@   requires tpl:  tplHas(cp, obsDomainID, templateID) ==> tplOf(cp, obsDomainID, templateID) != nil
+//@   requires rfree: !cp.mutex.rheld
+//@   modifies cp.mutex.rheld
+
+// ---------------------------------------------------------------------------
+// decodeDataSet (C03 total and exact; C04 lookup; C17 modes)
+// ---------------------------------------------------------------------------
+
+//@ // ieOK: a template field as the store holds it: known elements carry their type's RFC width (checked for the
+//@ // shipped registry by enumeration), unknown ones are octet arrays of the wire's length
+//@ pure ieOK(e *entities.InfoElement) bool = e != nil && (e.DataType != OctetArray ==> e.Len == fixedWidth(e.DataType))
+//@ pure iesOK(L []*entities.InfoElement) bool = forall k in [0, len(L)): ieOK(L[k])
+//@ pure storeWF(cp *CollectingProcess) bool = forall d in [0, 4294967296): forall i in [0, 65536): tplHas(cp, d, i) ==> tplOf(cp, d, i) != nil && iesOK(tplOf(cp, d, i).ies) && len(tplOf(cp, d, i).ies) <= 65535
+
+//@ func (cp *CollectingProcess) decodeDataSet(dataBuffer, obsDomainID, templateID) (set, err)
+//@   requires cp:    cp != nil && !cp.mutex.held && !cp.mutex.rheld && dataBuffer != nil && cp.numExtraElements >= 0
+//@   requires store: storeWF(cp)
+//@   ensures  lookup: !old(tplHas(cp, obsDomainID, templateID)) ==> err != nil
+//@   ensures  lock:  !cp.mutex.held && !cp.mutex.rheld
+//@   modifies dataBuffer.buf, cp.mutex.rheld
+//@   loop 1 invariant st:   dataSet != nil && fresh(dataSet) && fresh(dataSet.records) && setInv(dataSet) && recsSafe(dataSet) && dataSet.isDecoding && dataSet.setType == Data
+//@                    && dataBuffer != nil && !cp.mutex.held && !cp.mutex.rheld && iesOK(template) && len(template) <= 65535
+//@   loop 1 decreases len(dataBuffer.buf)
+//@   loop 2 invariant cnt:  0 <= $i && $i <= len(template) && len(elements) <= $i && fresh(elements)
+//@   loop 2 invariant wf:   elemsWF(elements, len(elements))
+//@   loop 2 invariant st:   dataSet != nil && fresh(dataSet) && fresh(dataSet.records) && setInv(dataSet) && recsSafe(dataSet) && dataSet.isDecoding && dataSet.setType == Data
+//@                    && dataBuffer != nil && !cp.mutex.held && !cp.mutex.rheld && iesOK(template)
+//@   loop 2 decreases len(template) - $i
